@@ -25,6 +25,7 @@ KINDS = [
     dict(kind='download', dst='nonseekable', size=10), dict(kind='download', dst='path', size=2),
     dict(kind='download', dst='nonseekable', size=2), dict(kind='download', dst='path', size=10, preexisting=True),
     dict(kind='copy', size=10), dict(kind='copy', size=2), dict(kind='delete', size=1),
+    dict(kind='download', dst='path', size=0), dict(kind='download', dst='nonseekable', size=0),
 ]
 MULTIPART = [k for k in KINDS if k['kind'] in ('upload', 'copy') and k['size'] >= 4]
 PATH_DOWNLOADS = [k for k in KINDS if k['kind'] == 'download' and k.get('dst') == 'path']
@@ -86,7 +87,12 @@ def run_specs(ctx, prop_file, specs, monitor_fns, sampler=None, rule=''):
         rej = {}
         if ctx.broken is None:
             try:
-                rej, out, spans = validate_batch(batch)
+                # runs on the non-threaded executor execute every task inside submit():
+                # the staged-executor model does not describe them; monitors only
+                vb = [(i, r) for i, r in enumerate(batch) if not r.spec.get('nonthreaded')]
+                if vb:
+                    rej0, out, spans = validate_batch([r for _, r in vb])
+                    rej = {vb[j][0]: v for j, v in rej0.items()}
             except common.BuildBroken as b:
                 ctx.broken = b
         for i, r in enumerate(batch):
@@ -220,6 +226,49 @@ def specs_callbacks(ctx, kinds, cfg=None):
             n += 1
         if ts['kind'] in ('download', 'copy'):
             out.append(dict(transfers=[dict(ts, subs=[dict(provide_size=ts['size'])])], cfg=cfg, chooser=chooser(rng, n)))
+            out.append(dict(transfers=[dict(ts, size=0, subs=[dict(provide_size=0)])], cfg=cfg, chooser=chooser(rng, n + 1)))
+    return out
+
+
+def specs_early_cancel(ctx, kinds, seeds=3, upto=22, tag='early'):
+    """A cancel at EVERY one of the first scheduling points (the not-started / queued /
+    running window, where a cancel races the submission thread and two threads can
+    announce done at once), under several schedules."""
+    rng = ctx.rng('specs', tag)
+    out, n = [], 0
+    for ts in kinds:
+        for sd in range(seeds):
+            for at in range(0, upto):
+                out.append(dict(transfers=[ts], cfg=CFG_SMALL, chooser={'kind': ['random', 'pct'][n % 2], 'seed': rng.randrange(1 << 30)},
+                                cancel=dict(how='future', at=at)))
+                n += 1
+    return out
+
+
+def specs_stream_order(ctx, n):
+    """Ranged downloads to a non-seekable stream with 2-3 request threads racing."""
+    rng = ctx.rng('specs', 'stream-order')
+    out = []
+    for i in range(n):
+        cfg = dict(max_request_concurrency=rng.choice([2, 3]), max_in_memory_download_chunks=rng.choice([2, 3, 4]),
+                   max_io_queue_size=rng.choice([1, 2, 4]), io_chunksize=rng.choice([1, 2, 3, 4]))
+        out.append(dict(transfers=[dict(kind='download', dst='nonseekable', size=rng.choice([8, 12, 13]))], cfg=cfg,
+                        chooser={'kind': ['random', 'pct', 'pct'][i % 3], 'seed': rng.randrange(1 << 30), 'depth': 5}))
+    return out
+
+
+def specs_nonthreaded_interrupt(ctx, kinds):
+    """Ctrl-C delivered inside a request when every task runs in the caller's thread
+    (executor_cls=NonThreadedExecutor): the only mode in which a worker-side call
+    can see a KeyboardInterrupt."""
+    out = []
+    for ts in kinds:
+        for idx in range(6):
+            for when in ('before', 'after'):
+                out.append(dict(transfers=[ts], cfg=CFG_SMALL, chooser={'kind': 'first'}, nonthreaded=True,
+                                s3_fault=dict(idx=idx, when=when, exc='kbi')))
+            out.append(dict(transfers=[ts], cfg=CFG_SMALL, chooser={'kind': 'first'}, nonthreaded=True,
+                            s3_fault=dict(idx=idx, when='before')))
     return out
 
 
